@@ -356,43 +356,49 @@ func (r *Resolver) AutoTA() {
 		zlog.Warn("Fetched root DNSKEY RRset authenticated only by revoked-key self-signature — restricting to revocation processing")
 	}
 
-	kskFetched := make(TrustAnchors)
-	// fetchedRecords identifies every fetched KSK by the record itself. The
-	// "is this tracked key still in the zone" decisions below must not be
-	// taken from kskFetched: that map is indexed by the 16-bit key tag, and
-	// a different key that merely shares the tag would stand in for it.
+	// fetchedKSKs lists every fetched KSK once, record by record, and
+	// fetchedRecords identifies them by the record itself. Neither the walk
+	// over the fetched keys nor the "is this tracked key still in the zone"
+	// decisions below may go through a map indexed by the 16-bit key tag:
+	// two records of one RRset can share a tag, and the one stored last
+	// would stand in for the other — a new key hiding the revoked form of a
+	// trusted anchor, or the other way round.
+	fetchedKSKs := make([]*TrustAnchor, 0, len(resp.Answer))
 	fetchedRecords := make(map[string]struct{})
 
 	for _, rr := range resp.Answer {
 		if dnskey, ok := rr.(*dns.DNSKEY); ok {
 			if dnskey.Flags&DNSKEYFlagKSK != 0 {
-				fetchedRecords[dnskeyRecordFP(dnskey)] = struct{}{}
-				keyTag := dnssec.KeyTag(dnskey)
-				ta := &TrustAnchor{
+				fp := dnskeyRecordFP(dnskey)
+				if _, duplicate := fetchedRecords[fp]; duplicate {
+					continue
+				}
+				fetchedRecords[fp] = struct{}{}
+				fetchedKSKs = append(fetchedKSKs, &TrustAnchor{
 					DNSKey: dnskey,
 					State:  StateStart,
-				}
-
-				kskFetched[keyTag] = ta
+				})
 			}
 		}
 	}
-
-	fetchedTags := make([]uint16, 0, len(kskFetched))
-	for tag := range kskFetched {
-		fetchedTags = append(fetchedTags, tag)
-	}
-	sort.Slice(fetchedTags, func(i, j int) bool { return fetchedTags[i] < fetchedTags[j] })
+	// Fixed order (tag, then record) so the signature work a refresh spends
+	// does not depend on the order the upstream listed the keys in.
+	sort.SliceStable(fetchedKSKs, func(i, j int) bool {
+		ki, kj := fetchedKSKs[i].DNSKey, fetchedKSKs[j].DNSKey
+		if ti, tj := dnssec.KeyTag(ki), dnssec.KeyTag(kj); ti != tj {
+			return ti < tj
+		}
+		return dnskeyRecordFP(ki) < dnskeyRecordFP(kj)
+	})
 
 	// Authenticate every actionable revocation before mutating state. A shared
 	// work limit can reject a later self-signature; staging all results first
 	// prevents that rejection from returning after an earlier revocation was
 	// changed only in memory and before its tombstone/state contraction was
 	// persisted and published.
-	revocationSelfSigned, err := stageRevocationSelfSignatures(
+	revocationSelfSigned, err := stageRevocationSelfSignaturesByRecord(
 		resp.Answer,
-		fetchedTags,
-		kskFetched,
+		fetchedKSKs,
 		kskCurrent,
 		tombstones,
 		validationWork,
@@ -403,8 +409,8 @@ func (r *Resolver) AutoTA() {
 		return
 	}
 
-	for _, tag := range fetchedTags {
-		ta := kskFetched[tag]
+	for _, ta := range fetchedKSKs {
+		tag := dnssec.KeyTag(ta.DNSKey)
 		// Tombstoned by material? RFC 5011 §2.1 says revocation is
 		// permanent — ignore this fetched key regardless of tag.
 		if _, tombstoned := tombstones[dnskeyMaterialFP(ta.DNSKey)]; tombstoned {
@@ -440,7 +446,7 @@ func (r *Resolver) AutoTA() {
 					zlog.Warn("Trust anchor REVOKE bit matches tag but not key material — ignoring revocation", "keytag", tag)
 					continue
 				}
-				if !revocationSelfSigned[tag] {
+				if !revocationSelfSigned[dnskeyRecordFP(ta.DNSKey)] {
 					zlog.Warn("Trust anchor REVOKE bit present but no valid self-signed RRSIG — ignoring revocation", "keytag", tag)
 					continue
 				}
@@ -773,10 +779,8 @@ func revocationIsSelfSignedWithWork(
 	return dnssec.VerifyRRSIGWithWork(revokedKey.Header().Name, keys, msg, work)
 }
 
-// stageRevocationSelfSignatures validates every actionable revocation before
-// AutoTA mutates trust-anchor state. Ordinary signature failures reject only
-// that revocation; a work-governor failure is terminal because continuing
-// would bypass the request-tree crypto budget.
+// stageRevocationSelfSignatures is stageRevocationSelfSignaturesByRecord for a
+// fetched set that holds one key per tag; the verdicts come back by that tag.
 func stageRevocationSelfSignatures(
 	rrs []dns.RR,
 	fetchedTags []uint16,
@@ -785,16 +789,46 @@ func stageRevocationSelfSignatures(
 	tombstones Tombstones,
 	work dnssec.SignatureWork,
 ) (map[uint16]bool, error) {
-	selfSignedByTag := make(map[uint16]bool)
+	fetched := make([]*TrustAnchor, 0, len(fetchedTags))
 	for _, tag := range fetchedTags {
-		ta := kskFetched[tag]
+		if ta := kskFetched[tag]; ta != nil && ta.DNSKey != nil {
+			fetched = append(fetched, ta)
+		}
+	}
+	byRecord, err := stageRevocationSelfSignaturesByRecord(rrs, fetched, kskCurrent, tombstones, work)
+	if err != nil {
+		return nil, err
+	}
+	selfSignedByTag := make(map[uint16]bool, len(byRecord))
+	for _, ta := range fetched {
+		if selfSigned, staged := byRecord[dnskeyRecordFP(ta.DNSKey)]; staged {
+			selfSignedByTag[dnssec.KeyTag(ta.DNSKey)] = selfSigned
+		}
+	}
+	return selfSignedByTag, nil
+}
+
+// stageRevocationSelfSignaturesByRecord validates every actionable revocation
+// before AutoTA mutates trust-anchor state, and reports the verdicts by record
+// (dnskeyRecordFP). Ordinary signature failures reject only that revocation; a
+// work-governor failure is terminal because continuing would bypass the
+// request-tree crypto budget.
+func stageRevocationSelfSignaturesByRecord(
+	rrs []dns.RR,
+	fetched []*TrustAnchor,
+	kskCurrent TrustAnchors,
+	tombstones Tombstones,
+	work dnssec.SignatureWork,
+) (map[string]bool, error) {
+	selfSignedByRecord := make(map[string]bool)
+	for _, ta := range fetched {
 		if ta == nil || ta.DNSKey == nil || ta.DNSKey.Flags&DNSKEYFlagRevoke == 0 {
 			continue
 		}
 		if _, tombstoned := tombstones[dnskeyMaterialFP(ta.DNSKey)]; tombstoned {
 			continue
 		}
-		existing := kskCurrent[tag]
+		existing := kskCurrent[dnssec.KeyTag(ta.DNSKey)]
 		if existing != nil &&
 			existing.DNSKey.Algorithm == ta.DNSKey.Algorithm &&
 			existing.DNSKey.Protocol == ta.DNSKey.Protocol &&
@@ -813,9 +847,9 @@ func stageRevocationSelfSignatures(
 		if dnssec.IsWorkError(err) {
 			return nil, err
 		}
-		selfSignedByTag[tag] = err == nil && selfSigned
+		selfSignedByRecord[dnskeyRecordFP(ta.DNSKey)] = err == nil && selfSigned
 	}
-	return selfSignedByTag, nil
+	return selfSignedByRecord, nil
 }
 
 // verifyFetchedKeysWithWork authenticates a freshly fetched root DNSKEY RRset
